@@ -323,9 +323,20 @@ def finish_quantity(q):
 
 
 # ---- Time ------------------------------------------------------------------------------------------------------------------
-def time_obj(mjd):
+def time_obj(mjd, tcb_offset=None):
+    """an instant (or array of instants).  `mjd` is the MJD number in the object's own time scale; `tcb_offset` (a real, scalar objects only) is
+    what astropy adds to express it in TCB: t.tcb.mjd == t.mjd + tcb_offset.  None means the object already is in TCB (t.tcb is t)."""
     o = Obj("Time", {"mjd": mjd})
-    o.fields["tcb"] = o
+    if tcb_offset is None:
+        o.fields["tcb"] = o
+    else:
+        o.fields["tcb"] = time_obj(arith(ast.Add(), mjd, tcb_offset))
+        o.fields["tcb_offset"] = tcb_offset
+    if not isinstance(mjd, Arr):
+        # two-part Julian date in the object's OWN scale: jd1 + jd2 == mjd + 2400000.5, split arbitrarily
+        jd2 = fresh_real("jd2")
+        o.fields["jd2"] = jd2
+        o.fields["jd1"] = arith(ast.Sub(), arith(ast.Add(), mjd, Fraction(24000005, 10)), jd2)
     o.fields["__arith__"] = _time_arith
     o.fields["__getitem__"] = lambda ex, path, recv, idx, node: time_obj(index(recv.fields["mjd"], idx))
     if isinstance(mjd, Arr):
